@@ -56,6 +56,11 @@ def cases(tier):
                                 continue
                             for lay in (('C', 'V') if fam in ('gauss', 'intdtype') else ('C',)):
                                 yield {'rows': list(rows), 'cols': list(cols), 'r': r, 'c': c, 'fam': fam, 'lay': lay}
+                    # open boundary ranks (the parts returned by TT.svd, environments): r_0 and / or r_d larger than 1
+                    for r0, rd in ((2, 1), (1, 3), (2, 3)):
+                        if d <= 3 or max(r) <= 2:
+                            yield {'rows': list(rows), 'cols': list(cols), 'r': [r0] + list(r[1:-1]) + [rd], 'c': False, 'fam': 'gauss', 'lay': 'C'}
+                            yield {'rows': list(rows), 'cols': list(cols), 'r': [r0] + list(r[1:-1]) + [rd], 'c': True, 'fam': 'lowrank', 'lay': 'C'}
 
 
 def build(case, rng):
@@ -87,7 +92,8 @@ def run_case(case, seed):
     cores_in = build(case, rng)
     d = len(cores_in)
     r.nontrivial = d >= 2
-    want = dn(tt_from(cores_in))
+    from vt.core import dense_cores as _dc
+    want = _dc([np.asarray(c_) for c_ in cores_in])            # keeps open boundary ranks
     sc = max(1.0, np.linalg.norm(want.ravel()))
 
     class _Cores(list):
@@ -100,7 +106,7 @@ def run_case(case, seed):
         if not r.true(key + ':meta', mp is None, mp):
             return False
         r.true(key + ':dims', list(T.row_dims) == case['rows'] and list(T.col_dims) == case['cols'])
-        r.close(key + ':value', dn(T), want, TOL)
+        r.close(key + ':value', _dc(T.cores), want, TOL)
         r.true(key + ':rank-growth', all(a <= b for a, b in zip(T.ranks, before['ranks'])),
                'ranks %s from %s' % (T.ranks, before['ranks']))
         for i in range(d):
